@@ -1,6 +1,7 @@
 (* C15 model: src/specialized_methods/mod.rs of the binary crate —
      * the index the partial class visitor builds (EntryIndex, InheritanceIndex, ReferenceIndex),
-     * get_ancestors / get_descendants (work-list over the user-supplied hierarchy: explicit fuel),
+     * get_ancestors / get_descendants (work-list with a visited set over the user-supplied hierarchy: explicit fuel,
+       which Theory3.v shows sufficient on every hierarchy, cyclic or not),
      * are_types_bridge_compatible, is_potential_bridge, get_higher_method, the loop collecting
        bridge_to_specialized / specialized_to_bridge,
      * SpecializedMethods::remap and add_specialized_methods_to_mappings, together with the part of
@@ -9,8 +10,8 @@
        and the super-class provider of dukebox/src/storage/opened_jar.rs.
    A jar is abstracted to what the visitor looks at: per class its name, super class, interfaces
    and methods; per method the access flags the code tests, name, descriptor and — when it has a
-   Code attribute — the method references of its invoke{virtual,special,static,interface}
-   instructions in order (invokedynamic is ignored by the code and therefore absent here).
+   Code attribute — its instruction list with the distinctions the visitor makes (the four invokes
+   with their method references, invokedynamic, anything else).
    IndexMap/IndexSet are association lists in insertion order with the operations the code uses.
    Definitions only; proofs are in Theory.v.  Descriptor parsing comes from C18. *)
 From FB Require Export Base.Str Base.Run Quill.Mappings C18.Model.
@@ -25,7 +26,20 @@ Definition mr_name (m : mref) : str := fst (snd m).
 Definition mr_desc (m : mref) : str := snd (snd m).
 Definition mref_eqb (a b : mref) : bool := str_eqb (fst a) (fst b) && key2_eqb (snd a) (snd b).
 
-Record jmeth := mkJM { jm_name : str; jm_desc : str; jm_acc : acc; jm_code : option (list mref) }.
+(* An instruction of a method body, as far as the visitor's `match instruction.instruction` tells instructions apart:
+   the four method invocations with the MethodRef they carry (the owner may be an ARRAY class name, `[...`; for
+   invokespecial / invokestatic duke also hands over whether the constant is an InterfaceMethodref, which the visitor
+   ignores), invokedynamic (name and descriptor of the call site; ignored), and everything else ([IOther] stands for a
+   possibly empty run of instructions that are none of the five invokes). *)
+Inductive insn :=
+| IVirtual (r : mref)
+| ISpecial (r : mref) (itf : bool)
+| IStatic (r : mref) (itf : bool)
+| IInterface (r : mref)
+| IDynamic (name desc : str)
+| IOther.
+
+Record jmeth := mkJM { jm_name : str; jm_desc : str; jm_acc : acc; jm_code : option (list insn) }.
 Record jclass := mkJC { jc_name : str; jc_super : option str; jc_ifaces : list str; jc_methods : list jmeth }.
 Definition jar := list jclass.
 
@@ -86,7 +100,17 @@ Definition store_children (C : graph) (c : jclass) : graph :=
 Definition jar_methods (J : jar) : list (mref * jmeth) :=
   flat_map (fun c => map (fun m => ((jc_name c, (jm_name m, jm_desc m)), m)) (jc_methods c)) J.
 
-(* `class.into_obj()`: method references into array classes are dropped *)
+(* the first filter_map of finish_method: InvokeVirtual | InvokeSpecial | InvokeStatic | InvokeInterface => Some(method_ref),
+   every other instruction (invokedynamic included) => None *)
+Definition invoke_target (i : insn) : option mref :=
+  match i with
+  | IVirtual r | ISpecial r _ | IStatic r _ | IInterface r => Some r
+  | IDynamic _ _ | IOther => None
+  end.
+Definition targets (l : list insn) : list mref :=
+  flat_map (fun i => match invoke_target i with Some r => [r] | None => [] end) l.
+
+(* the second one, `class.into_obj()`: method references into array classes are dropped *)
 Definition is_obj_ref (r : mref) : bool := negb (starts_with [cLBRACK] (mr_class r)).
 
 Definition ix_classes (J : jar) : list str := set_extend str_eqb (map jc_name J) [].
@@ -96,14 +120,26 @@ Definition ix_methods (J : jar) : list (mref * acc) :=
   fold_left (fun ms e => map_put mref_eqb (fst e) (jm_acc (snd e)) ms) (jar_methods J) [].
 Definition ix_refs (J : jar) : list (mref * list mref) :=
   fold_left (fun rs e => match jm_code (snd e) with
-                         | Some l => map_upd mref_eqb (fst e) [] (set_extend mref_eqb (filter is_obj_ref l)) rs
+                         | Some l => map_upd mref_eqb (fst e) [] (set_extend mref_eqb (filter is_obj_ref (targets l))) rs
                          | None => rs
                          end) (jar_methods J) [].
 
 (* ------------------------------------------------------------------ *)
-(* get_ancestors / get_descendants: `while let Some(x) = queue.pop() { for y in G[x] { queue.push(y);
-   out.push(y) } }` — a stack without a visited set.  One unit of fuel per pop; on a cyclic
-   hierarchy the Rust loop does not terminate, the model answers Err. *)
+(* get_ancestors / get_descendants (after "fix: the hierarchy walks of the bridge detection visit every class once"):
+     let mut out = IndexSet::new(); let mut queue = vec![class];
+     while let Some(x) = queue.pop() { for y in G[x] { if out.insert(y) { queue.push(y) } } }
+     out.into_iter().collect()
+   — a stack; the output set doubles as the visited set: a class is listed, pushed and expanded once, whatever the
+   number of paths that reach it, and a cyclic hierarchy (legal bytes) is walked like any other.  One unit of fuel per
+   pop; Theory3.v: a run started at one class pops exactly 1 + (number of distinct classes it lists) times
+   ([walk_exact]), so [walk_fuel] below is enough on EVERY table ([walk_total]) and the model never answers Err here. *)
+Fixpoint push_new (ys : list str) (stack out : list str) : list str * list str :=
+  match ys with
+  | [] => (stack, out)
+  | y :: ys' => if mem_str y out then push_new ys' stack out
+                else push_new ys' (y :: stack) (out ++ [y])
+  end.
+
 Fixpoint walk (fuel : nat) (G : graph) (stack : list str) (out : list str) : res (list str) :=
   match stack with
   | [] => Ok out
@@ -112,28 +148,14 @@ Fixpoint walk (fuel : nat) (G : graph) (stack : list str) (out : list str) : res
       | O => Err
       | S f =>
           match map_get str_eqb c G with
-          | Some ys => walk f G (rev ys ++ q) (out ++ ys)
+          | Some ys => walk f G (fst (push_new ys q out)) (snd (push_new ys q out))
           | None => walk f G q out
           end
       end
   end.
 
-(* The fuel of a run.  A stack without a visited set pops once per PATH of the table that starts at the
-   class it was started from (a class reached along two inheritance paths is expanded twice), so the
-   model gives every run the largest number of paths that start at a class of the table — [graph_bound],
-   computed by [cost] (paths from c, cut off below depth d; the depth bound is the number of rows of the
-   table: a chain of an acyclic table visits distinct rows).  Theory3.v: on an acyclic table this is
-   exactly enough ([walk_exact], [fuel_suffices]); on a cyclic one the walk answers Err. *)
-Fixpoint cost (d : nat) (G : graph) (c : str) {struct d} : nat :=
-  match map_get str_eqb c G with
-  | None => 1%nat
-  | Some ys => match d with
-               | O => 1%nat
-               | S d' => S (list_sum (map (cost d' G) ys))
-               end
-  end.
-Definition graph_bound (d : nat) (G : graph) : nat := fold_right (fun e m => Nat.max (cost d G (fst e)) m) 1%nat G.
-Definition walk_fuel (G : graph) : nat := graph_bound (length G) G.
+(* every class a run lists is an entry of some row: one more than the number of entries bounds the pops *)
+Definition walk_fuel (G : graph) : nat := S (length (flat_map (fun e => snd e) G)).
 
 (* ------------------------------------------------------------------ *)
 (* the bridge predicate *)
